@@ -223,6 +223,10 @@ func init() {
 		// negative n copies nothing
 		want = Ite(BVSlt(want, BVConst(0, 64)), BVConst(0, 64), want)
 		src, soff, n, rerr, _ := e.readN(st, streamRef(args[1]), want, 1)
+		if e.dstIsDiscard {
+			e.dstIsDiscard = false
+			return one(st, n, rerr)
+		}
 		written, werr := sink(e, st, fr, args[0], src, soff, n, pos)
 		wok := Eq(werr.Tid, IntConst(0))
 		err := &IfaceV{Tid: Ite(wok, rerr.Tid, werr.Tid), Ref: Ite(wok, rerr.Ref, werr.Ref)}
@@ -287,6 +291,36 @@ func init() {
 		}
 		_, err := sink(e, st, fr, args[0], arr, BVConst(0, 64), BVConst(uint64(nb), 64), pos)
 		return one(st, err)
+	}
+	// bufio.Reader over a ghost stream: Peek does not consume, Discard does; Read may return fewer bytes than asked
+	models["(*bufio.Reader).Peek"] = func(e *Exec, st *State, fr *Frame, fn *ssa.Function, args []Value, pos token.Pos) []Outcome {
+		e.note("trusted: bufio.Reader.Peek/Discard/Read contracts over ghost byte streams (requests are assumed to fit the reader's buffer)")
+		ref := streamRef(args[0])
+		want := args[1].(*Term)
+		e.oblige(st, fr, "safe.peek-negative", pos, BVSle(BVConst(0, 64), want))
+		r := e.rd(st, ref)
+		avail := BVSub(r.n, r.pos)
+		ok := BVUle(want, avail)
+		n := Ite(ok, want, avail)
+		c := Fresh("cap", BV(64))
+		st.AssumeFact(And(BVUle(n, c), BVUle(c, BVConst(maxLen, 64))))
+		sl := e.newSlice(st, types.Typ[types.Uint8], n, c)
+		st.setArrayOf(sl.Elem, comp{"", BV(8)}, sl.Arr, ArrayCopy(zeroTerm(byteArr), BVConst(0, 64), r.data, r.pos, n))
+		term := &IfaceV{Tid: r.errT, Ref: r.errR}
+		e.ioerrRecord(st, Not(ok), term)
+		return one(st, sl, &IfaceV{Tid: Ite(ok, IntConst(0), term.Tid), Ref: Ite(ok, IntConst(0), term.Ref)})
+	}
+	models["(*bufio.Reader).Discard"] = func(e *Exec, st *State, fr *Frame, fn *ssa.Function, args []Value, pos token.Pos) []Outcome {
+		ref := streamRef(args[0])
+		want := args[1].(*Term)
+		want = Ite(BVSlt(want, BVConst(0, 64)), BVConst(0, 64), want)
+		_, _, n, err, _ := e.readN(st, ref, want, 1)
+		return one(st, n, err)
+	}
+	models["(*bufio.Reader).Read"] = func(e *Exec, st *State, fr *Frame, fn *ssa.Function, args []Value, pos token.Pos) []Outcome {
+		recv := &IfaceV{Tid: IntConst(1), Ref: streamRef(args[0])}
+		outs, _ := e.readModel(st, fr, recv, args[1].(*SliceV), pos)
+		return outs
 	}
 	models["(*bufio.Writer).Flush"] = func(e *Exec, st *State, fr *Frame, fn *ssa.Function, args []Value, pos token.Pos) []Outcome {
 		// flushing may hit the writer's limit: modelled as a zero-length write that fails iff the limit was reached
@@ -384,7 +418,8 @@ func (e *Exec) invokeModel(st *State, fr *Frame, cc *ssa.CallCommon, recv *Iface
 	case cc.Method.Name() == "Read" && (it == "io.Reader" || it == "io.ReadWriter" || it == "io.ReadCloser"):
 		// io.Reader contract: a read delivers between 1 and len(p) of the remaining bytes (short reads are allowed),
 		// or fails with the terminal error when nothing is left
-		e.note("trusted: io.Reader.Read contract over ghost byte streams (short reads allowed)")
+		return e.readModel(st, fr, recv, args[0].(*SliceV), pos)
+	case false:
 		buf := args[0].(*SliceV)
 		ref := recv.Ref
 		r := e.rd(st, ref)
@@ -481,4 +516,27 @@ func init() {
 	models["fmt.Fprintf"] = pureOpaque("fmt.Fprintf")
 	models["fmt.Fprintln"] = pureOpaque("fmt.Fprintln")
 	models["fmt.Fprint"] = pureOpaque("fmt.Fprint")
+}
+
+// readModel: io.Reader.Read contract: a read delivers between 1 and len(p) of the remaining bytes (short reads are
+// allowed), or fails with the terminal error when nothing is left.
+func (e *Exec) readModel(st *State, fr *Frame, recv *IfaceV, buf *SliceV, pos token.Pos) ([]Outcome, bool) {
+	e.note("trusted: io.Reader.Read contract over ghost byte streams (short reads allowed)")
+	ref := recv.Ref
+	r := e.rd(st, ref)
+	avail := BVSub(r.n, r.pos)
+	empty := Eq(buf.Len, BVConst(0, 64))
+	atEnd := Eq(avail, BVConst(0, 64))
+	n := Fresh("nread", BV(64))
+	st.AssumeFact(BVUle(n, buf.Len))
+	st.Assume(Implies(Or(empty, atEnd), Eq(n, BVConst(0, 64))))
+	st.Assume(Implies(Not(Or(empty, atEnd)), And(BVUle(BVConst(1, 64), n), BVUle(n, avail))))
+	e.ghSet(st, "rd.pos", BV(64), ref, BVAdd(r.pos, n))
+	e.frameCheck(st, fr, Loc{Key: elemKey(buf.Elem), Idx: []*Term{buf.Arr}}, pos)
+	c := comp{"", BV(8)}
+	st.setArrayOf(buf.Elem, c, buf.Arr, ArrayCopy(st.arrayOf(buf.Elem, c, buf.Arr), buf.Off, r.data, r.pos, n))
+	fail := And(Not(empty), atEnd)
+	term := &IfaceV{Tid: r.errT, Ref: r.errR}
+	e.ioerrRecord(st, fail, term)
+	return one(st, n, &IfaceV{Tid: Ite(fail, term.Tid, IntConst(0)), Ref: Ite(fail, term.Ref, IntConst(0))}), true
 }
